@@ -38,6 +38,9 @@ def jobs(tier):
                 for v in vs:
                     js.append(("job_cross", dict(_name="q=%s saved=%s restored-as=%s P2=%s" % (qn, k1, k2, v),
                                                  qn=qn, k1=k1, k2=k2, variant=v)))
+                    if qn == "11" and v in ("same", "group", "S", "M"):       # empty password and identities
+                        js.append(("job_cross", dict(_name="q=%s saved=%s restored-as=%s P2=%s empty inputs" % (qn, k1, k2, v),
+                                                     qn=qn, k1=k1, k2=k2, variant=v, lens=(0, 0, 0))))
     js.append(("job_shipped", dict(_name="shipped sets pairwise (ground)")))
     return js
 
@@ -46,10 +49,9 @@ def _uses(cls, v):
     return v in ("gen", "group") or (cls in "AB" and v in ("M", "N", "MNcat", "MNswap")) or (cls == "S" and v == "S")
 
 
-def job_cross(J, qn, k1, k2, variant):
+def job_cross(J, qn, k1, k2, variant, lens=(1, 1, 1)):
     q = orders()[qn]
     P = loader.MODS["params"]
-    lens = (1, 1, 1)
     J.bounds.update(q=qn, saved_by=k1, restored_by=k2, P2=variant, lens=lens)
 
     def h(ctx):
